@@ -314,17 +314,17 @@ def _start_nodes(u, envname, depot):
     u.canary("start.depot-selected", sel.at(j * B + b) == j % N)  if depot else u.canary("start.shifted", sel.at(j * B + b) == j % N + 1)
 
 
-@unit("ops.select_start_nodes.tsp", file=OPS, func="select_start_nodes", props=("C12", "C10"))
+@unit("ops.select_start_nodes.tsp", file=OPS, func="select_start_nodes", props=("C12", "C10", "C13"))
 def _(u):
     _start_nodes(u, "tsp", False)
 
 
-@unit("ops.select_start_nodes.cvrp", file=OPS, func="select_start_nodes", props=("C12", "C10"))
+@unit("ops.select_start_nodes.cvrp", file=OPS, func="select_start_nodes", props=("C12", "C10", "C13"))
 def _(u):
     _start_nodes(u, "cvrp", True)
 
 
-@unit("pdp.select_start_nodes", file="rl4co/envs/routing/pdp/env.py", func="PDPEnv.select_start_nodes", props=("C12",))
+@unit("pdp.select_start_nodes", file="rl4co/envs/routing/pdp/env.py", func="PDPEnv.select_start_nodes", props=("C12", "C10", "C13"))
 def _(u):
     B, K, H = u.dims("B K H")
     N = 2 * H
@@ -340,7 +340,7 @@ def _(u):
     u.prove("start.distinct-per-instance", IMPL(AND(K <= H, j != j2), sel.at(j * B + b) != sel.at(j2 * B + b)))
 
 
-@unit("mtvrp.select_start_nodes", file="rl4co/envs/routing/mtvrp/env.py", func="MTVRPEnv.select_start_nodes", props=("C12",))
+@unit("mtvrp.select_start_nodes", file="rl4co/envs/routing/mtvrp/env.py", func="MTVRPEnv.select_start_nodes", props=("C12", "C10", "C13"))
 def _(u):
     B, K, N = u.dims("B K N")
     td = SymTD({"locs": u.tensor("locs", (B, N + 1, 2), "f")}, (B,))
@@ -366,7 +366,7 @@ def _(u):
 AMD = "rl4co/models/zoo/am/decoder.py"
 
 
-@unit("am.decoder.cache.batchify", file=AMD, func="PrecomputedCache.batchify", props=("C12", "C14"))
+@unit("am.decoder.cache.batchify", file=AMD, func="PrecomputedCache.batchify", props=("C12", "C14", "C11", "C13"))
 def _(u):
     B, K, N, E = u.dims("B K N E")
     ne = u.tensor("node_embeddings", (B, N, E), "f")
